@@ -85,6 +85,12 @@ CHECKS = {
         text="For each enumerated well-formed parent pre-state and each public child-list operation, CrossHair executes the real method with the index (range -7..7) and item selectors as solver variables and must confirm over all paths that the local invariant holds afterwards and that a raising operation changed nothing. One inductive step from any valid local state covers edit histories of any length because the invariant is local to a (parent, children) pair. Counterexamples are re-run in CPython.",
         note="Pre-states: 7 parent kinds quick / 20 thorough, built with the real constructors; 10 candidate item kinds; index -7..7. 'Not confirmed' counts as inconclusive. Trusted: CrossHair, z3.",
         ref="5/C14"),
+    "C18": dict(
+        level="model_checking", engine="pysx",
+        technique="symbolic execution of the real Python functions (AST -> z3, merged paths) on a symbolic character array and a symbolic limit; one SMT query per obligation over all lines within the bounds",
+        text="FortLineLength.process, _get_line_type and find_break_point are read from /repo at run time and executed by the pysx interpreter with string views over a z3 array (slicing, lstrip, rfind, the four anchored regexes, dict lookups by symbolic line type, try/except, the continuation while-loop) on ONE symbolic physical line of symbolic length and a symbolic limit. z3 decides for all such lines: no exception escapes; every emitted line is at most limit long; the emitted views tile the input text in order (leading blanks dropped only on the strip-and-retry path); a code line is never broken inside its trailing comment. Every witness is replayed through the real process() in CPython with an independent concrete checker.",
+        note="Bounds: limit 40..46 and 128..132 with line length <= 130 / 280 and <= 2 / 1 continuation-loop iterations (quick); 40..132 in three ranges, length <= 420, <= 3 iterations (thorough); alphabet TAB + printable ASCII; the loop unwinding is an assumption. Trusted: pysx string model (validated by replay), z3.",
+        ref="5/C18"),
     "C19": dict(
         level="translation_validation", engine="fsym",
         technique="SMT (non-linear real arithmetic) on the symbolically executed TL kernel and PSyAD-generated adjoint: z3 decides <Ax,y> = <x,A*y> for all active x, y and all passive data, per array extent; coefficient-wise fallback after a solver-checked linearity lemma",
